@@ -249,6 +249,9 @@ func cmdCheck(args []string) int {
 	verbose := fs.Bool("v", false, "verbose")
 	noReplay := fs.Bool("noreplay", false, "skip native replay (development only; exit 3)")
 	fs.Parse(args)
+	if r := os.Getenv("VERIF_REPO"); r != "" {
+		*repo = r
+	}
 	if *prop == "" {
 		fmt.Fprintln(os.Stderr, "need -prop")
 		return 2
@@ -441,7 +444,7 @@ func cmdCheck(args []string) int {
 				continue
 			}
 			if outcomeMatches(res.Outcome, v) {
-				dir, _ := rp.saveReplay(filepath.Join(*vdir, "replays"), *prop, o.name, v.AssertID, v.Tape, tierN, map[string]interface{}{
+				dir, _ := rp.saveReplay(filepath.Join(outDir(*vdir), "replays"), *prop, o.name, v.AssertID, v.Tape, tierN, map[string]interface{}{
 					"model": v.Model, "observed_engine": v.Observed, "observed_native": res.Observed, "native_outcome": res.Outcome, "msg": v.Msg, "trace": v.Trace})
 				violations = append(violations, confirmed{v: v, dir: dir, h: o.name, real: true})
 			} else {
